@@ -343,3 +343,119 @@ Proof.
       destruct (fst (parse_d true 31 (skipn c (x :: a')))) as [w c2| |k| |] eqn:E2; cbn [on_done]; try exact E2.
       rewrite fst_tick. rewrite arr_loop_zero by reflexivity. reflexivity.
 Qed.
+
+(* ------------------------------------------------------------------ the recognisers are sound *)
+Lemma parse_d_dollar d a : hd_error a = Some 36%N -> parse_d true d a = parse_bulk a.
+Proof. destruct a as [|c t]; [discriminate|]. intros H; inversion H; subst c. now rewrite parse_d_eq. Qed.
+
+Lemma get_hdr_split b : is_get_hdr b = true ->
+  exists nm, is_get_name nm /\ b = [42; 50; 13; 10]%N ++ encode (RBulk nm) ++ skipn HEADER_LEN b.
+Proof.
+  unfold is_get_hdr. intros H. apply orb_prop in H. destruct H as [H|H]; apply starts_with_split in H.
+  - exists NAME_GET_U. split; [now left|]. exact H.
+  - exists NAME_GET_L. split; [now right|]. exact H.
+Qed.
+
+Lemma set_hdr_split b : is_set_hdr b = true ->
+  exists nm, is_set_name nm /\ b = [42; 51; 13; 10]%N ++ encode (RBulk nm) ++ skipn HEADER_LEN b.
+Proof.
+  unfold is_set_hdr. intros H. apply orb_prop in H. destruct H as [H|H]; apply starts_with_split in H.
+  - exists NAME_SET_U. split; [now left|]. exact H.
+  - exists NAME_SET_L. split; [now right|]. exact H.
+Qed.
+
+Lemma name_len9 nm : is_get_name nm \/ is_set_name nm -> length (encode (RBulk nm)) = 9.
+Proof. intros [[->| ->]|[->| ->]]; reflexivity. Qed.
+
+Section Recog.
+  Variable utf8_ok : bytes -> bool.
+
+  Lemma recog_get_sound b : size_ok b -> is_get_hdr b = true ->
+    match recog_get utf8_ok b with
+    | FGet key n => exists nm, is_get_name nm /\ parse true b = Done (RArr [RBulk nm; RBulk key]) n
+                               /\ utf8_ok key = true
+    | FNeed => parse true b = Incomplete
+    | FSet _ _ _ => False
+    | FNot => True
+    end.
+  Proof.
+    intros Hs Hh. destruct (get_hdr_split b Hh) as (nm & Hnm & Hb).
+    set (a := skipn HEADER_LEN b) in *.
+    assert (Hsa : size_ok a) by (apply size_ok_skipn; exact Hs).
+    assert (Hp : parse true b =
+                 on_done (fst (parse_d true 31 a)) (fun v c => Done (RArr [RBulk nm; v]) (4 + 9 + c))).
+    { unfold parse, Resp.run, MAX_DEPTH. rewrite Hb at 1.
+      rewrite (parse_arr2 nm a (encode (RBulk nm)) eq_refl) by (rewrite <- Hb; exact Hs).
+      rewrite name_len9 by (now left). reflexivity. }
+    unfold recog_get. fold a.
+    destruct (scan_bulk HEADER_LEN a) as [key used| |] eqn:E.
+    - destruct (scan_bulk_ok _ _ _ _ Hsa E) as [H1 H2].
+      destruct (utf8_ok key) eqn:Eu; [|exact I].
+      exists nm. split; [exact Hnm|]. split; [|exact Eu].
+      rewrite Hp, (parse_d_dollar _ _ H2), H1. reflexivity.
+    - destruct (scan_bulk_need _ _ Hsa E) as [Hn|[H1 H2]].
+      + rewrite Hp, Hn, parse_d_nil. reflexivity.
+      + rewrite Hp, (parse_d_dollar _ _ H2), H1. reflexivity.
+    - exact I.
+  Qed.
+
+  Lemma recog_set_sound b : size_ok b -> is_set_hdr b = true ->
+    match recog_set utf8_ok b with
+    | FSet key val n => exists nm, is_set_name nm /\
+                          parse true b = Done (RArr [RBulk nm; RBulk key; RBulk val]) n /\ utf8_ok key = true
+    | FNeed => parse true b = Incomplete
+    | FGet _ _ => False
+    | FNot => True
+    end.
+  Proof.
+    intros Hs Hh. destruct (set_hdr_split b Hh) as (nm & Hnm & Hb).
+    set (a := skipn HEADER_LEN b) in *.
+    assert (Hsa : size_ok a) by (apply size_ok_skipn; exact Hs).
+    assert (Hp : parse true b =
+                 on_done (fst (parse_d true 31 a)) (fun v c =>
+                   on_done (fst (parse_d true 31 (skipn c a))) (fun w c2 =>
+                     Done (RArr [RBulk nm; v; w]) (4 + 9 + c + c2)))).
+    { unfold parse, Resp.run, MAX_DEPTH. rewrite Hb at 1.
+      rewrite (parse_arr3 nm a (encode (RBulk nm)) eq_refl) by (rewrite <- Hb; exact Hs).
+      rewrite name_len9 by (now right). reflexivity. }
+    unfold recog_set. fold a.
+    destruct (scan_bulk HEADER_LEN a) as [key u1| |] eqn:E.
+    - destruct (scan_bulk_ok _ _ _ _ Hsa E) as [H1 H2].
+      assert (Hsk : skipn (HEADER_LEN + u1) b = skipn u1 a) by (unfold a; now rewrite skipn_plus).
+      rewrite Hsk.
+      assert (Hsa2 : size_ok (skipn u1 a)) by (apply size_ok_skipn; exact Hsa).
+      destruct (scan_bulk (HEADER_LEN + u1) (skipn u1 a)) as [val u2| |] eqn:E2.
+      + destruct (scan_bulk_ok _ _ _ _ Hsa2 E2) as [H3 H4].
+        destruct (utf8_ok key) eqn:Eu; [|exact I].
+        exists nm. split; [exact Hnm|]. split; [|exact Eu].
+        rewrite Hp, (parse_d_dollar _ _ H2), H1. cbn [on_done].
+        rewrite (parse_d_dollar _ _ H4), H3. reflexivity.
+      + rewrite Hp, (parse_d_dollar _ _ H2), H1. cbn [on_done].
+        destruct (scan_bulk_need _ _ Hsa2 E2) as [Hn|[H3 H4]].
+        * rewrite Hn, parse_d_nil. reflexivity.
+        * rewrite (parse_d_dollar _ _ H4), H3. reflexivity.
+      + exact I.
+    - destruct (scan_bulk_need _ _ Hsa E) as [Hn|[H1 H2]].
+      + rewrite Hp, Hn, parse_d_nil. reflexivity.
+      + rewrite Hp, (parse_d_dollar _ _ H2), H1. reflexivity.
+    - exact I.
+  Qed.
+
+  (* the fast path never disagrees with the generic decoder *)
+  Lemma try_fast_path_sound b : size_ok b ->
+    match try_fast_path utf8_ok b with
+    | FGet key n => exists nm, is_get_name nm /\ parse true b = Done (RArr [RBulk nm; RBulk key]) n
+                               /\ utf8_ok key = true
+    | FSet key val n => exists nm, is_set_name nm /\
+                          parse true b = Done (RArr [RBulk nm; RBulk key; RBulk val]) n /\ utf8_ok key = true
+    | FNeed => parse true b = Incomplete
+    | FNot => True
+    end.
+  Proof.
+    intros Hs. unfold try_fast_path. destruct (length b <? 12); [exact I|].
+    destruct (is_get_hdr b) eqn:Eg.
+    - pose proof (recog_get_sound b Hs Eg) as H. destruct (recog_get utf8_ok b); auto. contradiction.
+    - destruct (is_set_hdr b) eqn:Es; [|exact I].
+      pose proof (recog_set_sound b Hs Es) as H. destruct (recog_set utf8_ok b); auto. contradiction.
+  Qed.
+End Recog.
